@@ -334,6 +334,77 @@ def stub_task(payload):
         build.drop_module(mod)
 
 
+RECUNION_SRC = '''
+from mashumaro.config import ADD_SERIALIZATION_CONTEXT, ADD_DIALECT_SUPPORT, TO_DICT_ADD_OMIT_NONE_FLAG, TO_DICT_ADD_BY_ALIAS_FLAG
+LOG = []
+@dataclass
+class Lf(MIX):
+    x: int = 0
+    def __pre_serialize__(self, context=None):
+        LOG.append(("pre", self.x, context))
+        return self
+    def __post_serialize__(self, d, context=None):
+        LOG.append(("post", self.x, context))
+        return d
+    class Config(BaseConfig):
+        code_generation_options = [{opts}]
+type Tree = Lf | list[Tree]
+type Maybe = Lf | None | dict[str, Maybe]
+@dataclass
+class C(MIX):
+    tree: Tree
+    m: Maybe = None
+    def __pre_serialize__(self, context=None):
+        LOG.append(("pre", "C", context))
+        return self
+    class Config(BaseConfig):
+        code_generation_options = [{opts}]
+'''
+
+
+def recunion_task(payload):
+    """recursive type aliases (PEP 695): the union helper calls itself; the flags (context, dialect, omit_none, by_alias)
+    must be threaded through every such call.  Static obligation over all generated functions of the schema (caller
+    against the callee's own signature) + a counted / context-capturing native run (bounded)."""
+    pid, base, opts = payload
+    label = f"[{base}/recursive-union/{'+'.join(o.split('_')[-1] for o in opts) or 'noflags'}]"
+    imp, mix, eps = BASES[base]
+    src = "\n".join([g4.PRELUDE, imp]) + RECUNION_SRC.format(opts=", ".join(opts))
+    try:
+        mod, recs0 = build.build_module(src)
+    except Exception as e:
+        return {"obligations": [dict(id=f"{pid}.Grec{label}/builds", status="refuted", detail=f"{type(e).__name__}: {e}"[:300], witness={"confirmed": True, "source": src, "why": str(e)[:200]})]}
+    try:
+        ctx = {"k": 1}
+        inst = mod.C(tree=[mod.Lf(1), [mod.Lf(2), [mod.Lf(3)]]], m={"a": mod.Lf(4), "b": {"c": mod.Lf(5)}})
+        first = []
+        kw = {"context": ctx} if "ADD_SERIALIZATION_CONTEXT" in opts else {}
+        try:
+            mod.LOG.clear()
+            inst.to_dict(**kw)
+            pre = [e for e in mod.LOG if e[0] == "pre" and e[1] != "C"]
+            post = [e for e in mod.LOG if e[0] == "post"]
+            if sorted(e[1] for e in pre) != [1, 2, 3, 4, 5] or sorted(e[1] for e in post) != [1, 2, 3, 4, 5]:
+                first.append(f"hooks ran for {sorted(e[1] for e in pre)} / {sorted(e[1] for e in post)}, expected once for each of the five leaves")
+            if kw and any(e[2] is not ctx for e in mod.LOG):
+                bad = [e for e in mod.LOG if e[2] is not ctx][0]
+                first.append(f"{bad[0]}-serialize hook of leaf {bad[1]} received context={bad[2]!r}, expected the caller's context object")
+        except Exception as e:  # noqa
+            first.append(f"to_dict raised {type(e).__name__}: {str(e)[:160]}")
+        recs = [r for r in harvest.RECORDER.records if recs0 and r.seq >= recs0[0].seq]
+        probs, ncalls = units.flag_threading_problems(recs)
+        w = {"confirmed": True, "source": src, "input": "C(tree=[Lf(1), [Lf(2), [Lf(3)]]], m={'a': Lf(4), 'b': {'c': Lf(5)}}).to_dict(context={'k': 1})", "why": first[0]} if first else None
+        obs = [dict(id=f"{pid}.Grec{label}/flags_threaded", status="proved" if not probs else "refuted", unit=f"{ncalls} helper calls in the generated functions",
+                    detail="; ".join(sorted(set(probs)))[:600], witness=w if probs else None)]
+        if not ncalls and opts:
+            obs.append(dict(id=f"{pid}.Grec{label}/cover", status="refuted", detail="no helper call found in the generated functions of a recursive union (vacuity guard)"))
+        obs.append(dict(id=f"{pid}.Hrec{label}/counted_run", status="proved" if not first else "refuted", unit="native to_dict with counting, context-capturing hooks (bounded)", bounded=True,
+                        detail="; ".join(first)[:500], witness=w))
+        return {"obligations": obs}
+    finally:
+        build.drop_module(mod)
+
+
 def lattice(tier):
     pts = []
     hook_sets = [("pre_ser", "post_ser", "pre_de", "post_de"), ("pre_ser",), ("post_ser",), ("pre_de",), ("post_de",), ("pre_ser", "post_ser"), ()]
@@ -466,6 +537,7 @@ def check(pid, tier):
     pts = lattice(tier)
     res = runner.run_pool(c19_task, [(pid, p) for p in pts], chunks=2)
     res += runner.run_pool(union_task, [(pid, "unions")], chunks=1)
+    res += runner.run_pool(recunion_task, [(pid, base, opts) for base in ("dict", "orjson") for opts in (("ADD_SERIALIZATION_CONTEXT",), ("ADD_SERIALIZATION_CONTEXT", "ADD_DIALECT_SUPPORT", "TO_DICT_ADD_OMIT_NONE_FLAG"), ())], chunks=1)
     res += runner.run_pool(stub_task, [(pid, base, mode, ctx) for base in ("dict", "orjson", "msgpack") for mode in ("lazy", "postponed") for ctx in (False, True)], chunks=1)
     obs, crashes = [], []
     for r in res:
